@@ -364,7 +364,8 @@ pub struct Analysis {
     pub pure: Option<bool>,
     pub dirs: Vec<Direction>,
     pub has_rtl: bool,
-    pub level_at: Vec<(Level, Level)>,
+    /// per paragraph: `Paragraph::level_at` at EVERY offset of the paragraph, and `ParagraphInfo::len()`
+    pub level_at: Vec<(Vec<Level>, usize)>,
     pub ii_same: bool,
 }
 
@@ -379,7 +380,7 @@ fn analyse8<D: BidiDataSource>(ds: &D, s: &str, api: Api, dir: Dir) -> Analysis 
                 .iter()
                 .map(|p| {
                     let pa = Paragraph::new(&info, p);
-                    (pa.level_at(0), pa.level_at(p.len() - 1))
+                    ((0..p.range.end - p.range.start).map(|k| pa.level_at(k)).collect::<Vec<Level>>(), p.len())
                 })
                 .collect();
             Analysis {
@@ -421,7 +422,7 @@ fn analyse16<D: BidiDataSource>(ds: &D, s: &[u16], api: Api, dir: Dir) -> Analys
                 .iter()
                 .map(|p| {
                     let pa = utf16::Paragraph::new(&info, p);
-                    (pa.level_at(0), pa.level_at(p.len() - 1))
+                    ((0..p.range.end - p.range.start).map(|k| pa.level_at(k)).collect::<Vec<Level>>(), p.len())
                 })
                 .collect();
             Analysis {
@@ -470,7 +471,7 @@ fn analysis_fields(a: &Analysis) -> String {
         " DIR={} HR={} LA={} II={}",
         a.dirs.iter().map(|d| dir_str(d)).collect::<Vec<_>>().join(";"),
         a.has_rtl as u8,
-        a.level_at.iter().map(|(x, y)| format!("{}:{}", x.number(), y.number())).collect::<Vec<_>>().join(";"),
+        a.level_at.iter().map(|(v, n)| format!("{}:{}", n, levels_str(v))).collect::<Vec<_>>().join(";"),
         if a.ii_same { "same" } else { "diff" }
     );
     s
